@@ -59,6 +59,7 @@ def run(check: Check, repo: Repo, tier: str) -> None:
     X.attr_memo(check, repo, mods + [repo.mod("utilities.get_default_value_ast"), repo.mod("type.validate")])
     check.floor("ATTR-MEMO", 1, "object-attribute memos")
     X.collect_guard(check, repo)
+    X.source_siblings(check, repo)
     X.handler_nulls(check, repo, repo.package_modules("execution"))
     X.zip_align(check, repo, repo.package_modules("execution"))
     G.sentinel_identity(check, mods)
